@@ -596,6 +596,10 @@ func (p *Program) expandAssigns(u *Universe, classes []string) (vars []string, a
 			all = true
 		case c == "builder":
 			add(builderVar(u))
+		case strings.HasPrefix(c, "ghost."):
+			if so, ok := p.ghostFields[strings.TrimPrefix(c, "ghost.")]; ok {
+				add(ghostFieldVar(u, strings.TrimPrefix(c, "ghost."), so))
+			}
 		case c == "maps":
 			for _, v := range sortedKeys(u.heapSorts) {
 				if strings.HasPrefix(v, "MD_") || strings.HasPrefix(v, "MV_") || v == "ML" {
